@@ -13,6 +13,8 @@ CLAIMED['C01'] = dict(text='Solver verdict over all LAMMPS-form cells (lengths i
              note='Real arithmetic; dead-zone assumption for the near-zero threshold; lemma L1 cos(arccos x)=x; a few rational-function obligations may stay unknown within the quick time-out and are reported as inconclusive.', ref='§5 C01')
 CLAIMED['C02'] = dict(text='dvect.pyx/dmag.pyx re-translated from source and executed symbolically: for ALL LAMMPS-form cells, any origin, any two points and all 8 periodicity settings the result differs from the direct separation by a lattice vector with shifts in {-1,0,1} along periodic directions only, is not longer than any of the (up to 27) candidates, dmag^2 = |dvect|^2; broadcast shapes; System.dvect/dmag dispatch; displacement() atom by atom under the chosen reference cell; nearest-image clause for orthogonal cells through a solver-proved finite search radius. Translator validated against the freshly compiled extension each run.',
              note='Real arithmetic (ties in mag_test < mag_d are float matters); dead-zone assumption on tilts; tilted-cell half-width nearest-image clause not decided.', ref='§5 C02')
+CLAIMED['C11'] = dict(text='Solver verdict over all 21-constant stiffness matrices (entries 0 or 1e-3..1000): the 81-entry index map and its setters, Cij9, compliance contraction C:S = symmetric identity and the Sijkl weight split (6x6 inverse as contract stub), transform() equal to the rank-4 rotation law for EVERY proper orthonormal axes matrix (9 reals with the orthonormality relations) on the independent entries, the 24 cubic rotations incl. inverse and sampled compositions, z-rotations by any angle (identity/inverse/composition, strain-energy invariance, hexagonal invariance), all crystal-system constructors against an independently coded Nye table incl. invariance under their symmetry generators, all 15 isotropic modulus pairs over (lambda, mu), Voigt/Reuss/Hill moduli, normalized_as idempotence.',
+             note='Real arithmetic; np.linalg.inv(6x6) is a contract stub (X.C = C.X = I, symmetric, functional, inverse-of-inverse); dead-zone assumption for near-zero thresholds; transform threshold handled by a threshold lemma.', ref='§5 C11')
 NA = {}
 props = [json.loads(l) for l in open(os.path.join(V, 'properties.jsonl'))]
 checks = []; na = []
